@@ -363,7 +363,7 @@ pub fn run(args: &Args) -> ! {
         }
     }
 
-    if total.outcomes.len() < 100 || total.kinds_seen.len() < 40 {
+    if total.failures.total() == 0 && (total.outcomes.len() < 100 || total.kinds_seen.len() < 40) {
         machinery_failure(&format!(
             "vacuous run: {} distinct kind sequences, {} kinds, {} inputs, failures {:?}",
             total.outcomes.len(),
